@@ -75,7 +75,7 @@ structure Def where
 
 /-- `body[formals ↦ actuals]`; for a repeated formal parameter the last actual counts -/
 def instantiate (ms : Bool) (d : Def) (actuals : List Term) : Term :=
-  let σ := dictOf ((d.formals.map Term.sym).zip actuals)
+  let σ := pyDict ((d.formals.map Term.sym).zip actuals)
   if ms then msSpec (fun _ _ => none) σ d.body else mgSpec (fun _ _ => none) σ d.body
 
 def appOf (ms : Bool) (defs : List (Sym × Def)) : App :=
